@@ -15,7 +15,7 @@ func (c *caseWriter) add(h History, r runResult) {
 	c.cw.Add(func(id int) string {
 		var steps []string
 		for i, ob := range r.Obs {
-			runeq := ob.Running == ob.Disk.Canon()
+			runeq := ob.RunningNR == ob.Disk.CanonNoResp()
 			steps = append(steps, cfgsm.CoqStep(h.Steps[i].Restart, ob.Ops, h.Steps[i].Faults, h.Steps[i].QueueFaults, h.Steps[i].DeferReload,
 				cfgsm.CoqObs(ob.Disk, ob.Err != "", ob.ReloadAsked, runeq, ob.LastFailed)))
 		}
